@@ -2,7 +2,7 @@ from lanes import *  # noqa
 
 PROP = {
         "level": "exploration",
-        "level_text": "Seeded exploration with a reference model as oracle: thousands (quick) to 10^5 (thorough) generated span trees (depth <= 6, fan-out <= 4; sync / async nodes, nodes rejected by a call-site `when:` or by the runtime filter, thread hand-offs through captured frames, async siblings under seeded poll interleavings, incoming ids as typed values / hex strings / integers) incoming trace id without a usable span id, non-span frames captured inside spans and handed to threads / tasks) are executed through the real #[emit::span] / emit::info! macros on a generic Runtime and a type-erased AmbientSlot over ThreadLocalCtxt, on the trace-context runtime (TraceparentCtxt, typed and as emit_traceparent::setup() builds it) and on a custom list-backed Ctxt that uses the trait's default open_push (repeated keys, innermost first), and SpanCtxt::current read at every program point plus every emitted span / event are compared with an ambient-id model written from the statement. Held-on-what-was-observed over the generated trees and schedules, not a proof over all programs.",
+        "level_text": "Seeded exploration with a reference model as oracle: thousands (quick) to 10^5 (thorough) generated span trees (depth <= 6, fan-out <= 4; sync / async nodes, nodes rejected by a call-site `when:` or by the runtime filter, thread hand-offs through captured frames, async siblings under seeded poll interleavings, incoming ids as typed values / hex strings / integers) incoming trace id without a usable span id, non-span frames captured inside spans and handed to threads / tasks) are executed through the real #[emit::span] / emit::info! macros on a generic Runtime and a type-erased AmbientSlot over ThreadLocalCtxt, on the trace-context runtime (TraceparentCtxt, typed and as emit_traceparent::setup() builds it), on ten runtimes whose context sits behind the crate's forwarding wrappers (&C, Box, Arc, Box<dyn ErasedCtxt>, AssertInternal, Option, stacked) and on a custom list-backed Ctxt that uses the trait's default open_push (repeated keys, innermost first), and SpanCtxt::current read at every program point plus every emitted span / event are compared with an ambient-id model written from the statement. Held-on-what-was-observed over the generated trees and schedules, not a proof over all programs.",
         "level_note": "Trusts the model in harness/mon/src/bin/c04.rs, the interpreter in harness/mon/src/shared/spantree.rs (thread-local routing of events to the tree being run) and vcommon's counting rng (never repeats, never zero). Poll interleavings are those of a seeded single-thread executor; threads are real OS threads joined before the parent continues.",
         "technique": "runtime monitoring: recursive span-tree interpreter written with the real macros + ambient-id reference model at every program point; Miri lane for the erased context frames",
         "assumptions": [
